@@ -193,6 +193,24 @@ def enum_polycyclic(tier):
                 yield dict(kind='spellings', lib=L, smiles=smi, seed=1000 * rep + k, n=20)
 
 
+STEREO_ALKENES = ['CC/C(C)=C\\C(C)(C)C', 'CC(C)(C)/C=C(/C)CC', 'C/C=C(/C)CC', 'C/C(O)=C(/C)O', 'CC/C(C)=C(/C)CC', 'CC/C(C)=C(\\C)CC', 'C/C=C\\C(C)(C)C',
+                  'CC(C)(C)/C=C\\C(C)(C)C', 'C/C(=C\\C(C)(C)C)C(C)(C)C', 'CCC/C(C)=C/C', 'C/C=C(\\CC)C(C)C', 'C/C(CC)=C(/C)C(C)(C)C']
+
+
+def enum_directed(tier):
+    """two classes where the answer hangs on where one atom sits in the atom order, enumerated so that no seed can miss them:
+    chains whose patterns have about a thousand raw embeddings with the one radical end first or last, and double bonds with three
+    or four substituents in cis/trans spellings (the reference substituents of the stereo label change with the spelling)"""
+    for L in ('BensonGA', 'PPY', 'XieGA2022'):
+        for k in (36, 40, 41, 42, 43, 44, 48):
+            for smi in ('[CH2]' + 'C' * k, 'C' * k + '[CH2]', 'OC' + 'C' * k):
+                yield dict(kind='spellings', lib=L, smiles=smi, seed=k, n=6)
+    for L in ('BensonGA', 'PPY'):
+        for k, smi in enumerate(STEREO_ALKENES):
+            for rep in range(1 if tier == 'quick' else 4):
+                yield dict(kind='spellings', lib=L, smiles=smi, seed=100 * rep + k, n=20)
+
+
 def check_any(ctx, case):
     return {'spellings': check_spellings, 'perms': check_perms}[case['kind']](ctx, case)
 
@@ -201,4 +219,5 @@ FAMILIES = [
     Family('spellings', check_any, strategy=lambda tier: spelling_case(), n=(800, 32000)),
     Family('exhaustive-permutations', check_any, enumerate=enum_perms),
     Family('polycyclic-spellings', check_any, enumerate=enum_polycyclic),
+    Family('directed-spellings', check_any, enumerate=enum_directed),
 ]
